@@ -59,6 +59,16 @@ type space struct {
 
 var hdrEnds = bs("\r\nX", "\r\n\r\n", "\nX", "\rX", "\r\n ")
 
+// substSpace: every single-byte substitution (all 256 values) at every position of a few well-formed seed texts,
+// one trie node per byte (so every chunk schedule of every variant is explored).
+func substSpace(name string, seeds []string, cfgs []Cfg) space {
+	var g []TrieGen
+	for _, m := range seeds {
+		g = append(g, substTrie{[]byte(m), all256(), 1})
+	}
+	return space{name: name + "/subst1x256", gen: unionTrie{g}, cfgs: cfgs, beyondErr: 1, beyondOk: 1, split: 1}
+}
+
 func nameAddrSpaces(r *Run) []space {
 	L := r.pick(6, 7)
 	sig := []byte("a \r\n<>\";=,\\*")
@@ -81,6 +91,8 @@ func nameAddrSpaces(r *Run) []space {
 		sp = append(sp, space{name: "name-addr/frags/" + h.String(), gen: seqTrie{Menu: menu, K: k, Term: hdrEnds},
 			cfgs: []Cfg{{HdrType: int(h), HdrCap: -1, ValCap: -1}}, beyondErr: 2, beyondOk: 1, split: 2})
 	}
+	sp = append(sp, substSpace("name-addr", []string{"\"A \\\" B\" <sip:a@b;x=1>;tag=t1;expires=5 ;q=0.5\r\nX", "Bob  <sip:b@c> ; lr\r\n ;x = \"q;\"\r\nX", "sip:c@d;tag=z;\r\nX", "* \r\nX"},
+		[]Cfg{{HdrType: int(sipsp.HdrContact), HdrCap: -1, ValCap: -1}, {HdrType: int(sipsp.HdrFrom), HdrCap: -1, ValCap: -1, Offs: 3, Junk: "a"}}))
 	return sp
 }
 
@@ -93,14 +105,16 @@ func listSpaces(r *Run) []space {
 		cfgs = append(cfgs, Cfg{ValCap: c, HdrCap: -1})
 	}
 	cfgs = append(cfgs, Cfg{ValCap: 2, HdrCap: -1, Offs: 5, Junk: "a"})
-	return []space{{name: "lists/frags", gen: seqTrie{Menu: menu, K: k, Term: hdrEnds}, cfgs: cfgs, beyondErr: 2, beyondOk: 1, split: 2}}
+	return []space{{name: "lists/frags", gen: seqTrie{Menu: menu, K: k, Term: hdrEnds}, cfgs: cfgs, beyondErr: 2, beyondOk: 1, split: 2},
+		substSpace("lists", []string{"<sip:a@b>;expires=5, \"x,y\" <sip:e@f>;q=0.1 ,\r\n sip:c@d;lr, n <sip:g@h>\r\nX"}, []Cfg{cfgs[0], cfgs[2], cfgs[5]})}
 }
 
 func numSpaces(r *Run) []space {
 	L := r.pick(8, 10)
 	return []space{{name: "num/bytes", gen: byteTrie{[]byte("1a \t\r\n"), L}, cfgs: []Cfg{{HdrCap: -1, ValCap: -1}, {Offs: 5, Junk: "colon", HdrCap: -1, ValCap: -1}}, beyondErr: 2, beyondOk: 2, split: 2},
 		{name: "num/frags", gen: seqTrie{Menu: bs("4294967295", "4294967296", "16777216", "16777217", "0", "00000000042", "000000009", "INVITE", " ", "\t", "\r\n ", "x"), K: r.pick(4, 5), Term: hdrEnds},
-			cfgs: []Cfg{{HdrCap: -1, ValCap: -1}}, beyondErr: 2, beyondOk: 1, split: 2}}
+			cfgs: []Cfg{{HdrCap: -1, ValCap: -1}}, beyondErr: 2, beyondOk: 1, split: 2},
+		substSpace("num", []string{"4294967295 INVITE\r\nX", " 0016777216\r\n \t\r\nX", "42 3PCC \r\nX", "abc-DEF@1.2.3.4\r\nX"}, []Cfg{{HdrCap: -1, ValCap: -1}, {Offs: 3, Junk: "colon", HdrCap: -1, ValCap: -1}})}
 }
 
 // flag sets for ParseTokenParam (mid-call flags; input-end is a final-call flag)
@@ -140,7 +154,10 @@ func tokSpaces(r *Run) []space {
 			cfgs: []Cfg{{Flags: uint(sipsp.POptTokSpTermF), HdrCap: -1, ValCap: -1}, {Flags: uint(sipsp.POptTokCommaTermF | sipsp.POptParamSemiSepF), HdrCap: -1, ValCap: -1},
 				{Flags: uint(sipsp.POptTokURIParamF), HdrCap: -1, ValCap: -1}, {Flags: uint(sipsp.POptTokURIHdrF), HdrCap: -1, ValCap: -1},
 				// the same fragment sequences behind a start offset (returned offsets are compared with it)
-				{Flags: uint(sipsp.POptTokCommaTermF | sipsp.POptParamSemiSepF), Offs: 5, Junk: "a", HdrCap: -1, ValCap: -1}, {Flags: uint(sipsp.POptTokURIParamF), Offs: 3, Junk: "crlf", HdrCap: -1, ValCap: -1}}, beyondErr: 2, beyondOk: 1, split: 2}}
+				{Flags: uint(sipsp.POptTokCommaTermF | sipsp.POptParamSemiSepF), Offs: 5, Junk: "a", HdrCap: -1, ValCap: -1}, {Flags: uint(sipsp.POptTokURIParamF), Offs: 3, Junk: "crlf", HdrCap: -1, ValCap: -1}}, beyondErr: 2, beyondOk: 1, split: 2},
+		substSpace("tokparam", []string{"branch = \"q\\\"x\" ; lr;x=1 ,next;y\r\nX", "transport=udp;a%41=b?h=1&c\r\nX", "p=v foo,bar\r\nX"},
+			[]Cfg{{Flags: uint(sipsp.POptTokCommaTermF | sipsp.POptParamSemiSepF), HdrCap: -1, ValCap: -1}, {Flags: uint(sipsp.POptTokURIParamF), HdrCap: -1, ValCap: -1},
+				{Flags: uint(sipsp.POptTokSpTermF | sipsp.POptTokCommaTermF), HdrCap: -1, ValCap: -1, Offs: 2, Junk: "a"}, {Flags: uint(sipsp.POptParamAmpSepF | sipsp.POptTokURIHdrF), HdrCap: -1, ValCap: -1}})}
 }
 
 func uriListSpaces(r *Run, hdrs bool) []space {
@@ -166,7 +183,8 @@ func uriListSpaces(r *Run, hdrs bool) []space {
 	menu := bs("transport", "=", "udp", ";", "&", "lr", "TTL", "1", " ", "\r\n ", "\"q\"", "maddr", "x", "%", "4")
 	return []space{{name: "urilist/bytes", gen: byteTrie{sig, L}, cfgs: cfgs, beyondErr: 2, beyondOk: 2, split: 2, finalFlags: []uint{uint(sipsp.POptInputEndF)}},
 		{name: "urilist/frags", gen: seqTrie{Menu: menu, K: r.pick(4, 5), Term: append(bs("?", " x", ","), hdrEnds...)}, cfgs: append(append([]Cfg(nil), cfgs[:3]...), Cfg{Flags: flagsets[0], ValCap: 2, HdrCap: -1, Offs: 5, Junk: "a"}), beyondErr: 2, beyondOk: 1, split: 2,
-			finalFlags: []uint{uint(sipsp.POptInputEndF)}}}
+			finalFlags: []uint{uint(sipsp.POptInputEndF)}},
+		substSpace("urilist", []string{"transport=udp;lr;TTL=1;x=\"q;\" ;maddr = m?h", "a=1&b = \"q\"&c&d=%41 x"}, append(append([]Cfg(nil), cfgs[:2]...), Cfg{Flags: flagsets[len(flagsets)-1], ValCap: 1, HdrCap: -1, Offs: 4, Junk: "a"}))}
 }
 
 func skipQuotedSpaces(r *Run) []space {
@@ -182,7 +200,8 @@ func flineSpaces(r *Run) []space {
 	for _, p := range []string{"SIP/2.0 ", "SIP/2.0 2", "SIP/2.0 200 ", "sip/2.0 ", "SIP/2.0 200 OK"} {
 		subs = append(subs, prefixedTrie{[]byte(p), byteTrie{[]byte("2A \r\n\x07"), d}})
 	}
-	return []space{{name: "fline/prefixed-bytes", gen: unionTrie{subs}, cfgs: []Cfg{{HdrCap: -1, ValCap: -1}, {Offs: 5, Junk: "crlf", HdrCap: -1, ValCap: -1}, {Offs: 33, Junk: "crlf", HdrCap: -1, ValCap: -1}}, beyondErr: 2, beyondOk: 2, split: 2}}
+	return []space{{name: "fline/prefixed-bytes", gen: unionTrie{subs}, cfgs: []Cfg{{HdrCap: -1, ValCap: -1}, {Offs: 5, Junk: "crlf", HdrCap: -1, ValCap: -1}, {Offs: 33, Junk: "crlf", HdrCap: -1, ValCap: -1}}, beyondErr: 2, beyondOk: 2, split: 2},
+		substSpace("fline", []string{"INVITE sip:alice@example.com SIP/2.0\r\nX", "SIP/2.0 486 Busy Here\r\nX", "sip/2.0 000 \nX", "PRACK sip:b SIP/2.0\rX"}, []Cfg{{HdrCap: -1, ValCap: -1}, {Offs: 17, Junk: "crlf", HdrCap: -1, ValCap: -1}})}
 }
 
 // header lines used by header-level fragment tries (also C01's menu)
@@ -295,5 +314,7 @@ func hdrSpaces(r *Run) []space {
 	}
 	cfgs = append(cfgs, cfgNil, Cfg{HdrCap: 2, ValCap: 1, WithVals: true, Offs: 5, Junk: "a"})
 	sp = append(sp, space{name: "hdr/frags", gen: seqTrie{Menu: strs(menu), K: 2, Term: strs(blankMenu), NoTermAtRoot: false}, cfgs: cfgs, beyondErr: 2, beyondOk: 2, split: 2})
+	sp = append(sp, substSpace("hdr", []string{"From : \"W\" <sip:w@s>;tag=ws\r\nCSeq: 7 ACK\r\nl: 2\r\n\r\n", "m: <sip:a@b>;expires=30, sip:c@d;q=0.7\r\nSubject: \r\nX-Gen: a\r\n b\r\n\r\n", "Call-ID:\n x\nExpires:60\nv: SIP/2.0/UDP h;branch=1\n\n"},
+		[]Cfg{cfgV, {HdrCap: 1, ValCap: 1, WithVals: true, Offs: 3, Junk: "crlf"}, cfgNil}))
 	return sp
 }
